@@ -239,6 +239,43 @@ theorem splitSizes_spec : ∀ (fuel : Nat) (p : Bytes) (sizes : List Nat),
             | succ s => simp
           · exact h2 d hd
 
+theorem natToHexAux_len : ∀ (f n k : Nat) (acc : Bytes), 1 ≤ k → n < 16 ^ k →
+    (natToHexAux f n acc).length ≤ acc.length + k := by
+  intro f
+  induction f with
+  | zero => intro n k acc _ _; simp [natToHexAux]
+  | succ f ih =>
+    intro n k acc hk hn
+    unfold natToHexAux
+    split
+    · simp; omega
+    · rename_i h16
+      obtain ⟨k, rfl⟩ : ∃ j, k = j + 1 := ⟨k - 1, by omega⟩
+      have hk1 : 1 ≤ k := by
+        cases k with
+        | zero => simp at hn; omega
+        | succ j => omega
+      have hdiv : n / 16 < 16 ^ k := by
+        rw [Nat.pow_succ] at hn
+        exact Nat.div_lt_of_lt_mul (by omega)
+      have := ih (n / 16) k (hexNibble (n % 16) :: acc) hk1 hdiv
+      simp at this ⊢
+      omega
+
+theorem natToHex_len (n : Nat) (h : n ≤ chunkBound) : (natToHex n).length ≤ maxSizeDigits := by
+  have := natToHexAux_len (n + 1) n 16 [] (by omega) (by unfold chunkBound at h; omega)
+  simpa [natToHex, maxSizeDigits] using this
+
+theorem flatten_mem_le (l : List Bytes) : ∀ d ∈ l, d.length ≤ l.flatten.length := by
+  induction l with
+  | nil => intro d hd; simp at hd
+  | cons a l ih =>
+    intro d hd
+    simp at hd
+    rcases hd with rfl | hd
+    · simp only [List.flatten_cons, List.length_append]; omega
+    · have := ih d hd; simp only [List.flatten_cons, List.length_append]; omega
+
 /-- **The canonical encoder produces valid streams** (every variant, every chunking). -/
 theorem encode_valid (P : Params) (v : Variant) (p : Bytes) (sizes : List Nat) (hp : p.length ≤ chunkBound) :
     Valid P v (encode P v p sizes) p := by
@@ -248,7 +285,13 @@ theorem encode_valid (P : Params) (v : Variant) (p : Bytes) (sizes : List Nat) (
     simp at hc
     obtain ⟨d, hd, rfl⟩ := hc
     exact ⟨natToHex_isHex _, h2 d hd⟩
-  · simp [payloadOf, List.map_map, Function.comp_def, h1, hp]
+  · refine ⟨by simp [payloadOf, List.map_map, Function.comp_def, h1, hp], ?_, by decide⟩
+    intro c hc
+    simp at hc
+    obtain ⟨d, hd, rfl⟩ := hc
+    have := flatten_mem_le _ d hd
+    rw [h1] at this
+    exact natToHex_len _ (by omega)
   · simp [payloadOf, List.map_map, Function.comp_def, h1]
 
 /-! ### the executable checker accepts every valid stream with exactly its payload -/
@@ -262,12 +305,13 @@ theorem spanB_hex (h rest : Bytes) (stop : UInt8) (hall : ∀ c ∈ h, isHexDigi
     have := ih (fun x hx => hall x (by simp [hx]))
     simp [spanB, hc, this]
 
-theorem sizeToken_strict (h rest : Bytes) (n : Nat) (stop : UInt8) (hh : IsHex h n)
+theorem sizeToken_strict (h rest : Bytes) (n : Nat) (stop : UInt8) (hh : IsHex h n) (hl : h.length ≤ maxSizeDigits)
     (hstop : isHexDigit stop = false) : sizeToken false false stop (h ++ stop :: rest) = .ok (n, rest) := by
   unfold sizeToken
   simp only [Bool.false_eq_true, if_false, spanB_hex h rest stop (isHex_all hh) hstop]
   unfold IsHex at hh
-  simp [hh]
+  have : ¬ h.length > maxSizeDigits := Nat.not_lt.2 hl
+  simp [hh, this]
 
 theorem expect_append (lit r : Bytes) : expect lit (lit ++ r) = .ok r := by
   induction lit with
@@ -335,44 +379,46 @@ theorem checkFinalSigned_ok (P : Params) (tr : Bool) (prev acc : Bytes) (hcr : (
       lineCRLF_append _ _ (trailerSig_no_cr P _ acc), take_name, drop_name]
     simp [atEnd]
 
-theorem checkSigned_complete (P : Params) (tr : Bool) (hz : Bytes) (hhz : IsHex hz 0)
+theorem checkSigned_complete (P : Params) (tr : Bool) (hz : Bytes) (hhz : IsHex hz 0) (hhzl : hz.length ≤ maxSizeDigits)
     (hcr : (13 : UInt8) ∉ P.trailerName) :
-    ∀ (cs : List Chunk) (prev acc : Bytes) (fuel : Nat), ChunksWF cs → cs.length < fuel →
+    ∀ (cs : List Chunk) (prev acc : Bytes) (fuel : Nat), ChunksWF cs → (∀ c ∈ cs, c.1.length ≤ maxSizeDigits) →
+      cs.length < fuel →
       checkSigned P tr false fuel prev acc (renderSigned P tr prev acc cs hz) = .ok (acc ++ payloadOf cs) := by
   intro cs
   induction cs with
   | nil =>
-    intro prev acc fuel _ hf
+    intro prev acc fuel _ _ hf
     obtain ⟨fuel, rfl⟩ : ∃ f, fuel = f + 1 := ⟨fuel - 1, by omega⟩
     have e : renderSigned P tr prev acc [] hz = hz ++ 59 :: (sigIntro.drop 1 ++ (chunkSig P prev [] ++ 13 :: 10 ::
         ((if tr then P.trailerName ++ [58] ++ checksumB64 P acc ++ crlf ++ trailerSigIntro ++
           trailerSig P (chunkSig P prev []) acc ++ crlf else []) ++ crlf))) := by
       rw [renderSigned_nil]; simp [finalRest, crlf]
     rw [e, checkSigned]
-    simp only [sizeToken_strict hz _ 0 59 hhz not_hex_59, expect_append, lineCRLF_append _ _ (chunkSig_no_cr P prev []),
+    simp only [sizeToken_strict hz _ 0 59 hhz hhzl not_hex_59, expect_append, lineCRLF_append _ _ (chunkSig_no_cr P prev []),
       if_true, checkFinalSigned_ok P tr prev acc hcr]
     simp [payloadOf]
   | cons c cs ih =>
     obtain ⟨h, d⟩ := c
-    intro prev acc fuel hwf hf
+    intro prev acc fuel hwf hdig hf
     obtain ⟨fuel, rfl⟩ : ∃ f, fuel = f + 1 := ⟨fuel - 1, by omega⟩
     have hw := hwf (h, d) (by simp)
     have hd0 : d.length ≠ 0 := fun e => hw.2 (List.length_eq_zero_iff.1 e)
     rw [renderSigned_cons, checkSigned]
-    simp only [sizeToken_strict h _ d.length 59 hw.1 not_hex_59, expect_append,
+    simp only [sizeToken_strict h _ d.length 59 hw.1 (hdig (h, d) (by simp)) not_hex_59, expect_append,
       lineCRLF_append _ _ (chunkSig_no_cr P prev d), hd0, if_false, takeExact_append]
     simp only [ne_eq, not_true_eq_false, if_false]
-    rw [ih (chunkSig P prev d) (acc ++ d) fuel (fun c hc => hwf c (by simp [hc])) (by simp at hf; omega)]
+    rw [ih (chunkSig P prev d) (acc ++ d) fuel (fun c hc => hwf c (by simp [hc])) (fun c hc => hdig c (by simp [hc])) (by simp at hf; omega)]
     simp [payloadOf_cons]
 
-theorem checkUnsigned_complete (P : Params) (hz : Bytes) (hhz : IsHex hz 0)
+theorem checkUnsigned_complete (P : Params) (hz : Bytes) (hhz : IsHex hz 0) (hhzl : hz.length ≤ maxSizeDigits)
     (hcr : (13 : UInt8) ∉ P.trailerName) :
-    ∀ (cs : List Chunk) (acc : Bytes) (fuel : Nat), ChunksWF cs → cs.length < fuel →
+    ∀ (cs : List Chunk) (acc : Bytes) (fuel : Nat), ChunksWF cs → (∀ c ∈ cs, c.1.length ≤ maxSizeDigits) →
+      cs.length < fuel →
       checkUnsigned P false fuel acc (renderUnsigned P acc cs hz) = .ok (acc ++ payloadOf cs) := by
   intro cs
   induction cs with
   | nil =>
-    intro acc fuel _ hf
+    intro acc fuel _ _ hf
     obtain ⟨fuel, rfl⟩ : ∃ f, fuel = f + 1 := ⟨fuel - 1, by omega⟩
     have hline : (13 : UInt8) ∉ P.trailerName ++ 58 :: checksumB64 P acc := by
       simp only [List.mem_append, List.mem_cons, not_or]
@@ -381,21 +427,21 @@ theorem checkUnsigned_complete (P : Params) (hz : Bytes) (hhz : IsHex hz 0)
         (crlf ++ []))) := by
       simp [renderUnsigned, crlf]
     rw [e, checkUnsigned]
-    simp only [sizeLine, Bool.false_eq_true, if_false, sizeToken_strict hz _ 0 13 hhz not_hex_13, expect_append, if_true,
+    simp only [sizeLine, Bool.false_eq_true, if_false, sizeToken_strict hz _ 0 13 hhz hhzl not_hex_13, expect_append, if_true,
       checkFinalUnsigned, lineCRLF_append _ _ hline, take_name, drop_name]
     simp [atEnd, payloadOf]
   | cons c cs ih =>
     obtain ⟨h, d⟩ := c
-    intro acc fuel hwf hf
+    intro acc fuel hwf hdig hf
     obtain ⟨fuel, rfl⟩ : ∃ f, fuel = f + 1 := ⟨fuel - 1, by omega⟩
     have hw := hwf (h, d) (by simp)
     have hd0 : d.length ≠ 0 := fun e => hw.2 (List.length_eq_zero_iff.1 e)
     have e : renderUnsigned P acc ((h, d) :: cs) hz = h ++ 13 :: ([10] ++ (d ++ (crlf ++ renderUnsigned P (acc ++ d) cs hz))) := by
       simp [renderUnsigned, crlf]
     rw [e, checkUnsigned]
-    simp only [sizeLine, Bool.false_eq_true, if_false, sizeToken_strict h _ d.length 13 hw.1 not_hex_13, expect_append, hd0,
+    simp only [sizeLine, Bool.false_eq_true, if_false, sizeToken_strict h _ d.length 13 hw.1 (hdig (h, d) (by simp)) not_hex_13, expect_append, hd0,
       takeExact_append]
-    rw [ih (acc ++ d) fuel (fun c hc => hwf c (by simp [hc])) (by simp at hf; omega)]
+    rw [ih (acc ++ d) fuel (fun c hc => hwf c (by simp [hc])) (fun c hc => hdig c (by simp [hc])) (by simp at hf; omega)]
     simp [payloadOf_cons]
 
 /-- **The oracle's checker accepts every valid stream, with exactly its payload.** -/
@@ -407,17 +453,17 @@ theorem check_complete (P : Params) (v : Variant) (s p : Bytes) (hcr : (13 : UIn
   | signed =>
     have := renderSigned_len P false cs P.seedSig [] hz
     simp only [render]
-    rw [checkSigned_complete P false hz hwf.2.1 hcr cs _ [] _ hwf.1 (by omega)]
+    rw [checkSigned_complete P false hz hwf.2.1 hwf.2.2.2.2 hcr cs _ [] _ hwf.1 hwf.2.2.2.1 (by omega)]
     simp [toVerdict]
   | signedTrailer =>
     have := renderSigned_len P true cs P.seedSig [] hz
     simp only [render]
-    rw [checkSigned_complete P true hz hwf.2.1 hcr cs _ [] _ hwf.1 (by omega)]
+    rw [checkSigned_complete P true hz hwf.2.1 hwf.2.2.2.2 hcr cs _ [] _ hwf.1 hwf.2.2.2.1 (by omega)]
     simp [toVerdict]
   | unsignedTrailer =>
     have := renderUnsigned_len P cs [] hz
     simp only [render]
-    rw [checkUnsigned_complete P hz hwf.2.1 hcr cs [] _ hwf.1 (by omega)]
+    rw [checkUnsigned_complete P hz hwf.2.1 hwf.2.2.2.2 hcr cs [] _ hwf.1 hwf.2.2.2.1 (by omega)]
     simp [toVerdict]
 
 end Vgw.Lemmas.ChunkSpec
